@@ -14,4 +14,11 @@ if not Path(wt).exists():
 Path(out).mkdir(parents=True, exist_ok=True)
 text = f"{p['title']}\n\n{p['statement']}\n\nIt is meant to hold {p['quantifier']['text']}."
 t = (V / "tools" / "mutant_prompt.txt").read_text()
+if tag:
+    t = t.replace("Make the changes as different from each other as you can (different functions / mechanisms / triggering conditions).",
+                  "Make the changes as different from each other as you can (different functions / mechanisms / triggering conditions). "
+                  "At least one change must involve TWO cooperating sites (each edit harmless alone) or need a multi-step history / sequence of calls to manifest; "
+                  "at least one must sit in a less obvious place through which the property is still reachable (a helper, an adapter, the command line, "
+                  "a converter, a rarely used option or store kind, the other zarr format) rather than in the function the property most directly names; "
+                  "prefer triggering conditions involving boundaries (empty / single element, dtype limits, unusual but legal names or layouts).")
 print(t.replace("<<<PROPERTY>>>", text).replace("<<<N>>>", n).replace("<<<OUT>>>", out).replace("<<<WT>>>", wt))
